@@ -95,6 +95,12 @@ func buildCmpGrid() {
 	num("d1", "1")
 	cmpData["di"] = int64(20)
 	num("di", "20")
+	cmpData["du8"] = uint8(20)
+	num("du8", "20")
+	cmpData["di16"] = int16(-2)
+	num("di16", "-2")
+	cmpData["du64"] = uint64(9007199254740993)
+	num("du64", "9007199254740993")
 	cmpData["dbig"] = int64(9007199254740993)
 	num("dbig", "9007199254740993")
 	num("9007199254740993", "9007199254740993")
